@@ -35,6 +35,11 @@ def run_harness(hexe, seed, n, scenario, out):
         args += ["-scenario=crashenum", "-enumbase=" + scenario.split(":")[1]]
         args[2] = "-n=30"
     elif scenario:
+        if scenario.endswith("@real"):
+            # the same scenario with every storage/lock operation ALSO performed on a real LocalBackend
+            # directory and a real SQLite lock database (one connection per instance)
+            scenario = scenario[:-5]
+            args.append("-real")
         args.append("-scenario=" + scenario)
         if scenario in PROBES:
             args[2] = "-n=%d" % PROBES[scenario]
